@@ -9,14 +9,14 @@ from vlib.verdict import Case
 PROPERTY = 'C11'
 MANIFEST = {
  'level_text': 'Lean 4 theorems, kernel-checked, about an executable model of SocketDriver._sendIfMsgs/_read/_handleSocketError/run/_select, drivers.parseMsg, decode_raw_line and the per-driver part of drivers.run, in which the socket is a pair of arbitrary outcome scripts: for every history of queue/script/loop operations the bytes accepted by the socket followed by the out-buffer are exactly the UTF-8 encoding of the messages taken so far (hence on drain: each message once, in order, whatever the short writes and EAGAINs), EAGAIN bursts of up to 121 never disconnect, and the messages delivered to feedMsg are a function of the concatenated received bytes only (any two partitions of the same stream deliver the same messages, including cuts inside a multi-byte character or inside CR LF); the model is tied to src/drivers/Socket.py by a differential run of thousands of generated schedules per run against the real driver under the real drivers.run(), which also evaluates the property statement on the implementation.',
- 'level_note': 'Trusted: Lean kernel (axioms propext/Classical.choice/Quot.sound only); the correspondence harness (FakeSocket, StubIrc, generators bound what it sees). Modelled and proved: out-buffer arithmetic, EAGAIN accounting, disconnect on other errors, zombie flush, in-buffer line framing, UTF-8 decoding with replacement (CPython algorithm), strip/parse via the C05 model, exception flow into drivers.run. The Irc object is any deterministic function of the feed history (the stub of the correspondence run answers PING and reconnects on ERROR like Irc.doError; the real queue is C19). Connections come in epochs (handler-requested and timer reconnects, fix 9171ff7: buffers emptied, rest of the chunk dropped): the invariants are per connection, the explicit chunk-independence theorems assume no reconnect point inside the stream. TLS, connect() failures and the write-check timer are not modelled. Known finding: a short write while a zombie Irc kills the driver leaves the tail of the last messages unsent (recorded, partial theorem + counter-example).',
+ 'level_note': 'Trusted: Lean kernel (axioms propext/Classical.choice/Quot.sound only); the correspondence harness (FakeSocket, StubIrc, generators bound what it sees). Modelled and proved: out-buffer arithmetic, EAGAIN accounting, disconnect on other errors, zombie flush, in-buffer line framing, UTF-8 encoding and decoding with replacement (CPython algorithm; decode∘encode = id proved), strip/parse via the C05 model, exception flow into drivers.run. The Irc object is any deterministic function of the feed history (the stub of the correspondence run answers PING and reconnects on ERROR like Irc.doError; the real queue is C19). Connections come in epochs (handler-requested and timer reconnects, fix 9171ff7: buffers emptied, rest of the chunk dropped): the invariants are per connection, the explicit chunk-independence theorems assume no reconnect point inside the stream. TLS, connect() failures and the write-check timer are not modelled. Known finding: a short write while a zombie Irc kills the driver leaves the tail of the last messages unsent (recorded, partial theorem + counter-example).',
  'technique': 'Lean 4 proof (invariants over operation histories, induction over chunk lists) + differential correspondence against the real driver with fault injection on send()/recv()',
  'design_ref': 'DESIGN.md §6 C11',
 }
 THEOREMS = ['C11.write_exact', 'C11.write_exact_drained', 'C11.queue_conserved', 'C11.eagain_tolerated',
             'C11.eagain_limit', 'C11.drains', 'C11.read_is_function_of_stream', 'C11.read_chunk_independent',
             'C11.read_delivers_lines', 'C11.read_chunks_from_any_state', 'C11.framing_exact',
-            'C11.reconnect_drops_rest_of_chunk', 'C11.never_crashes', 'C11.flushed_when_removed_partial',
+            'C11.reconnect_drops_rest_of_chunk', 'C11.decode_encode', 'C11.line_roundtrip', 'C11.never_crashes', 'C11.flushed_when_removed_partial',
             'C11.zombie_short_write_loses_tail']
 TRUSTED = ['Lean 4.33.0 kernel; axioms ⊆ {propext, Classical.choice, Quot.sound}',
            'harness/c11.py: FakeSocket (send accepts a scripted prefix / raises a scripted error; recv returns scripted chunks), StubIrc (FIFO + PING→PONG), generators, canonical state dump',
